@@ -41,6 +41,7 @@ type EventSpec struct {
 }
 
 type ContentPlan struct {
+	Late     []LateAddr  `json:"late,omitempty"`
 	TxMax    int         `json:"tx_max"`
 	LogMax   int         `json:"log_max"`
 	TraceMax int         `json:"trace_max"`
@@ -69,6 +70,20 @@ type SeededLogs struct {
 	UpTo      uint64       `json:"up_to"`
 	// Only: indices into the address pool that are seeded (empty = all)
 	Only []int `json:"only,omitempty"`
+}
+
+// LateAddr: an address that enters a referenced table late: Event (with the
+// address in input AddrInput) is emitted in block At - in Pct % of the versions
+// of that block only - and nowhere else; other events carry the address only
+// in blocks after At. Whether the address is in the referenced table therefore
+// depends on which version of block At is canonical, and every lookup of it
+// happens above At.
+type LateAddr struct {
+	Event     *model.Event `json:"event"`
+	AddrInput int          `json:"addr_input"`
+	Addr      string       `json:"addr"`
+	At        uint64       `json:"at"`
+	Pct       int          `json:"pct"`
 }
 
 type FaultPlan struct {
